@@ -148,18 +148,27 @@ func TryNewAnyDataProvider(val any) (DataProvider, error) {
 
 		switch valTyp.Kind() { // TODO: add more types
 		case reflect.String:
-			return NewSafeMapDataProvider(x.Interface().(map[string]string)), nil
+			if m, ok := convertMap[map[string]string](x); ok {
+				return NewSafeMapDataProvider(m), nil
+			}
 		case reflect.Int:
-			return NewSafeMapDataProvider(x.Interface().(map[string]int)), nil
+			if m, ok := convertMap[map[string]int](x); ok {
+				return NewSafeMapDataProvider(m), nil
+			}
 		case reflect.Float64:
-			return NewSafeMapDataProvider(x.Interface().(map[string]float64)), nil
+			if m, ok := convertMap[map[string]float64](x); ok {
+				return NewSafeMapDataProvider(m), nil
+			}
 		case reflect.Bool:
-			return NewSafeMapDataProvider(x.Interface().(map[string]bool)), nil
+			if m, ok := convertMap[map[string]bool](x); ok {
+				return NewSafeMapDataProvider(m), nil
+			}
 		case reflect.Interface:
-			return NewSafeMapDataProvider(x.Interface().(map[string]any)), nil
-		default:
-			return &EmptyDataProvider{Underlying: val}, fmt.Errorf("could not convert map[string]%s to a data provider", valTyp.String())
+			if m, ok := convertMap[map[string]any](x); ok {
+				return NewSafeMapDataProvider(m), nil
+			}
 		}
+		return &EmptyDataProvider{Underlying: val}, fmt.Errorf("could not convert map[string]%s to a data provider", valTyp.String())
 
 	case reflect.Struct:
 		return &StructDataProvider{value: x, tag: nil}, nil
@@ -173,4 +182,17 @@ func TryNewAnyDataProvider(val any) (DataProvider, error) {
 	default:
 		return &EmptyDataProvider{Underlying: val}, fmt.Errorf("could not convert type %s to a data provider. unsupported type", x.Kind().String())
 	}
+}
+
+// converts a (possibly named) map value into the plain map type M, if the types allow it
+func convertMap[M any](x reflect.Value) (M, bool) {
+	var zero M
+	if m, ok := x.Interface().(M); ok {
+		return m, true
+	}
+	target := reflect.TypeOf(zero)
+	if x.Type().ConvertibleTo(target) {
+		return x.Convert(target).Interface().(M), true
+	}
+	return zero, false
 }
